@@ -206,6 +206,12 @@ EXTRA = {}      # contracts may register further externals: dotted -> fn(eng,arg
 def resolve(dotted, eng):
     head = dotted.split('.')[0]
     dotted = '.'.join([ALIASES.get(head, head)] + dotted.split('.')[1:])
+    from . import nparr
+    if dotted in nparr.CONST:
+        return nparr.CONST[dotted]
+    if dotted in nparr.TABLE and dotted not in EXTRA:
+        eng.trusted_used.add(dotted)
+        return Builtin(dotted, nparr.TABLE[dotted])
     if dotted in CONSTANTS and CONSTANTS[dotted] is not None:
         eng.trusted_used.add(dotted)
         return CONSTANTS[dotted]
@@ -220,6 +226,9 @@ def call(dotted, eng, args, kwargs, node):
     head = dotted.split('.')[0]
     dotted = '.'.join([ALIASES.get(head, head)] + dotted.split('.')[1:])
     fn = EXTRA.get(dotted) or TABLE.get(dotted)
+    if fn is None:
+        from . import nparr
+        fn = nparr.TABLE.get(dotted)
     if fn is None:
         raise Unsupported('external %s has no assumed contract' % dotted)
     eng.trusted_used.add(dotted)
